@@ -17,8 +17,22 @@ import (
 )
 
 func runReplayDriver(r *Report, o *Obl, path string) bool {
-	driver := filepath.Join(r.Verif, "replay", "drivers", safeFileName(o.Unit)+"_test.go")
-	if _, err := os.Stat(driver); err != nil {
+	driver := ""
+	cands := []string{safeFileName(o.Unit)}
+	if i := strings.Index(o.Unit, ".lemma."); i >= 0 {
+		cands = append(cands, safeFileName(o.Unit[:i])+".lemma")
+	}
+	if i := strings.Index(o.Unit, "."); i >= 0 {
+		cands = append(cands, safeFileName(o.Unit[:i])+".any")
+	}
+	for _, c := range cands {
+		p := filepath.Join(r.Verif, "replay", "drivers", c+"_test.go")
+		if _, err := os.Stat(p); err == nil {
+			driver = p
+			break
+		}
+	}
+	if driver == "" {
 		return false
 	}
 	if o.PkgDir == "" {
